@@ -6,6 +6,7 @@ import (
 	"fmt"
 	"go/token"
 	"go/types"
+	"golang.org/x/tools/go/ssa/ssautil"
 	"math/big"
 	"sort"
 	"strings"
@@ -14,8 +15,8 @@ import (
 )
 
 type ModEntry struct {
-	Key  string     // "" = wildcard over Typ's leaves; otherwise heap key prefix (without comp suffix)
-	Lo   Term       // address interval [Lo, Hi)
+	Key  string // "" = wildcard over Typ's leaves; otherwise heap key prefix (without comp suffix)
+	Lo   Term   // address interval [Lo, Hi)
 	Hi   Term
 	Typ  types.Type // wildcard: aggregate type at Lo; slice range: element type
 	Rng  bool       // slice element range
@@ -85,6 +86,7 @@ func (f *Frame) callCommon(instr ssa.Instruction, c *ssa.CallCommon, st *State, 
 		}
 	}
 	g.havocCallees["dynamic call in "+shortKey(g.ctx.funcKey(f.fn))+": "+f.text(pos)] = true
+	g.frameHavoc(st, pos, f.text(pos))
 	return f.havocCall(st, sig)
 }
 
@@ -126,10 +128,13 @@ func (f *Frame) callStatic(instr ssa.Instruction, callee *ssa.Function, bindings
 	} else {
 		g.havocCallees[shortKey(key)] = true
 	}
+	if !pureExternal(key) {
+		g.frameHavoc(st, pos, f.text(pos))
+	}
 	if pureExternal(key) {
 		var out []Val
 		for i := 0; i < sig.Results().Len(); i++ {
-			out = append(out, g.pureAppN(key, i, args, sig.Results().At(i).Type(), st))
+			out = append(out, g.pureAppN(pureKey(callee, key), i, args, sig.Results().At(i).Type(), st))
 		}
 		for _, v := range out {
 			g.assumeWF(st, v)
@@ -247,6 +252,9 @@ func (f *Frame) modularCall(instr ssa.Instruction, callee *ssa.Function, ct *Con
 	g := f.g
 	key := g.ctx.funcKey(callee)
 	g.usedContracts[key] = true
+	if ct.Trusted {
+		g.usedTrusted["trusted contract: "+key] = true
+	}
 	sig := callee.Signature
 	src := f.text(pos)
 	// implicit precondition: non-nil pointer receiver
@@ -268,7 +276,7 @@ func (f *Frame) modularCall(instr ssa.Instruction, callee *ssa.Function, ct *Con
 	if ct.Pure {
 		var out []Val
 		for i := 0; i < sig.Results().Len(); i++ {
-			out = append(out, g.pureAppN(callee.Object().(*types.Func).FullName(), i, args, sig.Results().At(i).Type(), st))
+			out = append(out, g.pureAppN(pureKey(callee, key), i, args, sig.Results().At(i).Type(), st))
 		}
 		ev2 := f.calleeEval(callee, st, pre, args, out)
 		for _, e := range ct.Ensures {
@@ -546,6 +554,10 @@ func (g *Gen) frameHavoc(st *State, pos token.Pos, src string) {
 	if g.topC == nil || !g.topC.HasModifies {
 		return
 	}
+	if g.topC.AssumeCalleeFrames {
+		g.usedTrusted["frame of uncontracted callees assumed in "+shortKey(g.topC.Key)] = true
+		return
+	}
 	g.oblige(st, "frame", pos, src+" :: callee without modifies clause", boolLit(false))
 }
 
@@ -556,12 +568,16 @@ func (f *Frame) invoke(instr ssa.Instruction, c *ssa.CallCommon, st *State, recv
 	pos := instr.Pos()
 	src := f.text(pos)
 	g.oblige(st, "nil", pos, src, tNot(tEq(recv.Comps[0], intLit(0))))
-	iface := under(c.Value.Type()).(*types.Interface)
+	if c.Method.Name() == "Error" && c.Signature().Params().Len() == 0 && c.Signature().Results().Len() == 1 && types.Identical(c.Value.Type(), errorType()) {
+		// error.Error(): assumed free of effects on caller-visible memory
+		g.usedTrusted["error.Error() has no side effects"] = true
+		return []Val{g.pureApp("error.Error", []Val{recv}, types.Typ[types.String], st)}
+	}
 	if ifc := g.ctx.ifaceContract(c.Method); ifc != nil {
 		// interface-level contract: every implementation is checked to refine it
 		return f.ifaceModular(instr, c, ifc, st, recv, args, pos)
 	}
-	cands := g.ctx.implementers(iface, c.Method, pkgOf(f.fn))
+	cands := g.ctx.implementers(c.Value.Type(), c.Method, pkgOf(f.fn))
 	type branch struct {
 		st   *State
 		vals []Val
@@ -652,7 +668,8 @@ type implCand struct {
 	fn  *ssa.Function
 }
 
-func (c *Ctx) implementers(iface *types.Interface, m *types.Func, from *types.Package) []implCand {
+func (c *Ctx) implementers(ifaceT types.Type, m *types.Func, from *types.Package) []implCand {
+	iface := under(ifaceT).(*types.Interface)
 	var out []implCand
 	seen := map[string]bool{}
 	pkgs := []*types.Package{}
@@ -679,6 +696,9 @@ func (c *Ctx) implementers(iface *types.Interface, m *types.Func, from *types.Pa
 			for _, t := range []types.Type{tn.Type(), types.NewPointer(tn.Type())} {
 				if !types.Implements(t, iface) {
 					continue
+				}
+				if !c.flowsInto(t, ifaceT) {
+					continue // structurally compatible, but never converted to (a refinement of) this interface
 				}
 				sel := c.prog.MethodSets.MethodSet(t).Lookup(m.Pkg(), m.Name())
 				if sel == nil {
@@ -725,7 +745,7 @@ func (c *Ctx) ifaceContract(m *types.Func) *Contract {
 	if recv == nil {
 		return nil
 	}
-	if nt, ok := recv.Type().(*types.Named); ok {
+	if nt, ok := recv.Type().(*types.Named); ok && nt.Obj().Pkg() != nil {
 		return c.contracts[nt.Obj().Pkg().Path()+"."+nt.Obj().Name()+"."+m.Name()]
 	}
 	return nil
@@ -995,8 +1015,7 @@ func (f *Frame) scanCallMods(ci ssa.CallInstruction, lm *loopMods, depth int) {
 	g := f.g
 	c := ci.Common()
 	if c.IsInvoke() {
-		iface := under(c.Value.Type()).(*types.Interface)
-		cands := g.ctx.implementers(iface, c.Method, pkgOf(f.fn))
+		cands := g.ctx.implementers(c.Value.Type(), c.Method, pkgOf(f.fn))
 		ok := len(cands) > 0
 		for _, cd := range cands {
 			if !f.scanCalleeMods(cd.fn, lm, depth) {
@@ -1176,3 +1195,36 @@ func staticMod(callee *ssa.Function, m string, lm *loopMods) bool {
 }
 
 func (g *Gen) panicAllowed(f *Frame, p *ssa.Panic, st *State) bool { return false }
+
+// flowsInto: is the concrete type t converted somewhere in the program to an interface J whose method
+// set includes iface's (J == iface included)? Structural implementers that are never stored in such an
+// interface are not dispatch candidates.
+func (c *Ctx) flowsInto(t types.Type, ifaceT types.Type) bool {
+	if c.mkIface == nil {
+		c.mkIface = map[string]map[string]bool{}
+		for fn := range ssautil.AllFunctions(c.prog) {
+			for _, b := range fn.Blocks {
+				for _, in := range b.Instrs {
+					if mi, ok := in.(*ssa.MakeInterface); ok {
+						if j, ok := under(mi.Type()).(*types.Interface); ok && j.NumMethods() > 0 {
+							k := typeKey(mi.X.Type())
+							if c.mkIface[k] == nil {
+								c.mkIface[k] = map[string]bool{}
+							}
+							c.mkIface[k][typeKey(mi.Type())] = true
+						}
+					}
+				}
+			}
+		}
+	}
+	return c.mkIface[typeKey(t)][typeKey(ifaceT)]
+}
+
+// pureKey: the name of the uninterpreted function standing for a pure Go function (shared by code and specs).
+func pureKey(fn *ssa.Function, fallback string) string {
+	if o, ok := fn.Object().(*types.Func); ok && o != nil {
+		return o.FullName()
+	}
+	return fallback
+}
